@@ -20,6 +20,7 @@ NOTES = {
  "C16-seed3": "missed by C16 and C12 as they stood (exit 0: every lazily opened workbook of the configurations had its first sheet materialised - and with it the string table touched - before the savers started); caught since the configurations `2-lazy-clones-never-touched` and `2-lazy-savers-same-object-never-touched` were added (the deferred first access now happens inside the concurrent saves; all 252 interleavings each)",
  "C12-seed3": "caught by C12 as it stood (foreign-string / removed-row histories) and by C07 (cells of a removed tail band survive)",
  "C10-seed3": "caught by C10 as it stood (save-emission: a cell whose row the writer does not know)",
+ "C17-seed3": "missed by C17 as it stood (exit 0: every case parsed into a fresh object); caught since the `reuse` space (every ordered pair of texts parsed into the SAME Coordinate / Range / Address object, fresh-object twin) was added - the same space found the genuine defect C17-K4 in Range::set_range on the unchanged tree",
  "C09-seed2": "caught by C09 as it stood (translate clause: a reference leaving the grid followed by another reference) and by C03 (shared-edge family)",
 
  "C11-seed1": "missed by the check as it stood when the seed arrived (exit 0: no operation of the alphabet made a materialised sheet need a NEW numbered dependent part); caught after the edit operation also adds a comment (clause saved-content-equals-eager, the unloaded sheet's comments are replaced)",
